@@ -254,7 +254,33 @@ def check_c14(exe, tier, seed, verdict):
         long_root = "/r" + "x" * n
         cases.append(("opt-%d" % n, ["newopt 1 %s" % hx("ROOT_PREFIX=" + long_root + ";PARSING_DIRS=" + ":".join("/d" + "y" * (n // 3) for _ in range(3))),
                                       "readconfig 1 %s %s %s %s x3d x23" % (hx("p"), hx("/usr"), hx("c"), hx("conf")), "free 1"]))
+    # lists of drop-in directory postfixes whose entries have DIFFERENT lengths, in every order (the process-wide list and the
+    # CONFIG_DIRS option): each directory of the list is looked into, however long its postfix is next to the others
+    post_lists = [[".d", ".dd"], [".dd", ".d"], [".d", ".conf.d", "." + "p" * 100 + ".d"], ["." + "p" * 100 + ".d", ".d"], [".d", "." + "q" * 240 + ".d"],
+                  ["/a", "/" + "b" * 200, "/cc"]]
+    for n, pl_ in enumerate(post_lists):
+        R = ROOT + "/pl%d" % n
+        sc = []
+        for j, post in enumerate(pl_):
+            sc.append("file %s %s" % (hx("%s/%s/cfg%s/f%d.conf" % (R, "usr/etc" if j % 2 else "etc", post, j)), hx("K%d=%d\n" % (j, j))))
+        sc += ["setconfdirs " + " ".join(hx(p_) for p_ in pl_), "readdirs 1 %s %s %s %s x3d x23" % (hx(R + "/usr/etc"), hx(R + "/etc"), hx("cfg"), hx("conf"))]
+        sc += ["get String 1 - %s" % hx("K%d" % j) for j in range(len(pl_))] + ["free 1", "setconfdirs"]
+        if all(":" not in p_ for p_ in pl_):
+            sc += ["newopt 2 %s" % hx("CONFIG_DIRS=%s;PARSING_DIRS=%s/usr/etc:%s/etc" % (":".join(pl_), R, R)), "readconfig 2 - - %s %s x3d x23" % (hx("cfg"), hx("conf"))]
+            sc += ["get String 2 - %s" % hx("K%d" % j) for j in range(len(pl_))] + ["free 2"]
+        cases.append(("postfixes-%d" % n, sc))
     res = core.run_cases(exe, cases, per_case_timeout=120)
+    for n, pl_ in enumerate(post_lists):
+        out = res.get("postfixes-%d" % n)
+        if out and not out["crash"]:
+            gets = [e for e in out["ev"] if e["op"] == "get"]
+            for k_, e in enumerate(gets):
+                j = k_ % len(pl_)
+                if e["rc"] != "ECONF_SUCCESS" or e.get("out") != str(j):
+                    verdict.violation("C14:postfix-list", {"kind": "postfixes", "list": pl_, "entry": j, "via": "econf_set_conf_dirs" if k_ < len(pl_) else "CONFIG_DIRS", "got": e},
+                                      "drop-in directory list %s (%s): the file in directory cfg%s was not read (%s)" % (
+                                          [p_ if len(p_) < 20 else p_[:8] + "...(%d bytes)" % len(p_) for p_ in pl_], "econf_set_conf_dirs" if k_ < len(pl_) else "CONFIG_DIRS",
+                                          pl_[j] if len(pl_[j]) < 20 else "<%d bytes>" % len(pl_[j]), e["rc"]))
     # the longest fields once more with the whole script interpreted by a thread whose stack is 256 KiB (uninstrumented build):
     # what the library puts on the stack must not grow with the length (or the number) of the fields it handles
     small = [("smallstack-%s-%d" % (kind, n), ["watchdog 600", "longprobe %s %d %s" % (kind, n, hx(ROOT + "/ls"))]) for kind in KINDS for n in (65536, 1 << 20)]
@@ -293,7 +319,7 @@ def check_c14(exe, tier, seed, verdict):
         verdict.violation("C14:%s:%s" % (e["kind"], e["api"].replace(" ", "")), {"kind": "long", "event": e, "spec": x["spec"]},
                           "%s of %d bytes through %s: %s, %d bytes came back, head intact %s, tail intact %s" % (e["kind"], e["len"], e["api"], e["rc"], e["out_len"], e["head_ok"], e["tail_ok"]))
     cov = {"evaluations": len(events), "distinct_nontrivial": nn,
-           "rule": "field kinds {value, quoted value, key, section name, continuation line, comment before, comment after, second definition joined under JOIN_SAME_ENTRIES} x lengths {EVERY length 1..%d and BUFSIZ-70..BUFSIZ+70%s, 2*BUFSIZ, 64 Ki, %s} through: econf_readFile, plain / extended getters, listings, econf_mergeFiles + getters, econf_writeFile + econf_readFile + getters, and the setters; file names of 6..256 bytes read directly and as drop-in; MAIN file names of 12..256 bytes (with suffix) through econf_readDirs, econf_readConfig and econf_readDirsHistory; paths of 200 and PATH_MAX-3 .. PATH_MAX+2 bytes; option strings of 8 Ki .. 70 Ki. The field carries distinct head and tail markers; Envelope!TLong requires out_len = len and both markers (names beyond NAME_MAX / PATH_MAX: an error code, no crash). Every kind once more at 64 Ki and 1 Mi on a thread with a 256 KiB stack (uninstrumented build), plus 20 entries with two 10000-byte comments each, written and read back there. non-trivial = length >= BUFSIZ-2." % (330 if tier == "quick" else 1099, "" if tier == "quick" else ", around 2*BUFSIZ and 64 Ki", "1 Mi" if tier == "thorough" else "200000"),
+           "rule": "field kinds {value, quoted value, key, section name, continuation line, comment before, comment after, second definition joined under JOIN_SAME_ENTRIES} x lengths {EVERY length 1..%d and BUFSIZ-70..BUFSIZ+70%s, 2*BUFSIZ, 64 Ki, %s} through: econf_readFile, plain / extended getters, listings, econf_mergeFiles + getters, econf_writeFile + econf_readFile + getters, and the setters; file names of 6..256 bytes read directly and as drop-in; MAIN file names of 12..256 bytes (with suffix) through econf_readDirs, econf_readConfig and econf_readDirsHistory; paths of 200 and PATH_MAX-3 .. PATH_MAX+2 bytes; option strings of 8 Ki .. 70 Ki; drop-in directory postfix lists whose entries differ in length (2 .. 243 bytes) in every order, as process-wide list and as CONFIG_DIRS. The field carries distinct head and tail markers; Envelope!TLong requires out_len = len and both markers (names beyond NAME_MAX / PATH_MAX: an error code, no crash). Every kind once more at 64 Ki and 1 Mi on a thread with a 256 KiB stack (uninstrumented build), plus 20 entries with two 10000-byte comments each, written and read back there. non-trivial = length >= BUFSIZ-2." % (330 if tier == "quick" else 1099, "" if tier == "quick" else ", around 2*BUFSIZ and 64 Ki", "1 Mi" if tier == "thorough" else "200000"),
            "samples": events[:3], "exhaustive": True,
            "trusted_base": ["gcc ASan/UBSan", "TLC 1.8.0 (Envelope!TLong)", "drv.c longprobe/longname"]}
     return cov
